@@ -76,6 +76,9 @@ type session struct {
 	// shaken is set once the PeerInfo exchange has taken place. Until then no
 	// other message is served.
 	shaken bool
+	// features are the negotiated features of the session: those offered by
+	// both the fuzzer and this target.
+	features Features
 }
 
 func (s *FuzzServer) serve(ctx context.Context, conn net.Conn) {
@@ -127,11 +130,12 @@ func (s *FuzzServer) serveOneRequest(conn net.Conn, sess *session) (err error) {
 		resp, err = s.handlePeerInfo(req)
 		if err == nil {
 			sess.shaken = true
+			sess.features = req.PeerInfo.FuzzFeatures & resp.PeerInfo.FuzzFeatures
 		}
 	case MessageType_ImportBlock:
 		resp, err = s.handleImportBlock(req)
 	case MessageType_SetState:
-		resp, err = s.handleSetState(req)
+		resp, err = s.handleSetState(req, sess.features)
 	case MessageType_GetState:
 		resp, err = s.handleGetState(req)
 	default:
@@ -190,8 +194,14 @@ func (s *FuzzServer) handleImportBlock(m Message) (Message, error) {
 	}, nil
 }
 
-func (s *FuzzServer) handleSetState(m Message) (Message, error) {
-	stateRoot, err := s.Service.SetState(m.SetState.Header, m.SetState.State, m.SetState.Ancestry)
+func (s *FuzzServer) handleSetState(m Message, features Features) (Message, error) {
+	// The ancestry list is used only when the ancestry feature was negotiated.
+	ancestry := m.SetState.Ancestry
+	if features&FeatureAncestry == 0 {
+		ancestry = nil
+	}
+
+	stateRoot, err := s.Service.SetState(m.SetState.Header, m.SetState.State, ancestry)
 	if err != nil {
 		return Message{}, err
 	}
